@@ -5,6 +5,7 @@
    golang.org/x/crypto/openpgp is outside them (the tie calls the real library for the oracle answers). *)
 From Coq Require Import List Ascii String Bool Arith Lia.
 Require Import GS S11.
+Require ARM.
 Import ListNotations.
 
 Section C11.
@@ -19,8 +20,17 @@ Section C11.
      the signed body *)
   Theorem C11_success_means_verified : forall k input r, new_reader (Some k) input = ROk entity r ->
     exists body sg rest e, cs_decode input = Some (body, sg, rest) /\ pgp_verify k body sg = Some e /\
-      r_signer entity r = Some e /\ paragraphs entity para read_all r = read_all body.
+      r_signer entity r = Some e /\ paragraphs entity para read_all r = read_all body /\
+      ARM.armor_ok (consumed input rest) = true.
   Proof. exact (S11.C11_sound keyring entity sig para cs_decode pgp_verify read_all). Qed.
+
+  (* a damaged signature: a checksum line in the signature armor that does not hold three bytes ("=LwA=" in the place of
+     "=LwA9") makes reading fail - whatever the signature check would say (the armor reader of golang.org/x/crypto goes on
+     as if such a line were not there and compares no checksum: the r13 finding, repaired by 5d22f1c) *)
+  Theorem C11_malformed_checksum_line_is_refused : forall k input body sg rest, starts_pgp input = true ->
+    cs_decode input = Some (body, sg, rest) -> ARM.armor_ok (consumed input rest) = false ->
+    new_reader (Some k) input = RErr entity.
+  Proof. exact (S11.C11_malformed_checksum keyring entity sig cs_decode pgp_verify). Qed.
 
   (* input that does not start with the armor, does not decode, or whose signature does not verify against
      the keyring (modified text, key outside the keyring, damaged/truncated/missing signature, empty keyring)
@@ -44,6 +54,21 @@ Section C11.
     new_reader kr input = ROk entity r -> r_signer entity r = None.
   Proof. exact (S11.C11_unsigned_no_signer keyring entity sig cs_decode pgp_verify). Qed.
 End C11.
+(* the check behind it (ARM): a line it lets through is never one the armor reader skips; a line the reader would skip is
+   refused; it refuses nothing the reader would have taken for a checksum; and the checksum line the library writes, for
+   any data, is let through *)
+Theorem C11_checked_line_is_never_skipped : forall l, ARM.line_ok l = true -> ARM.xline l <> ARM.Skipped.
+Proof. exact ARM.let_through_is_never_skipped. Qed.
+Theorem C11_skipped_line_is_refused : forall l, ARM.xline l = ARM.Skipped -> ARM.line_ok l = false.
+Proof. exact ARM.skipped_is_refused. Qed.
+Theorem C11_refused_line_is_skipped_or_corrupt : forall l, ARM.line_ok l = false -> ARM.xline l = ARM.Skipped \/ ARM.xline l = ARM.Corrupt.
+Proof. exact ARM.refused_is_skipped_or_corrupt. Qed.
+Theorem C11_written_checksum_line_is_let_through : forall data,
+  ARM.line_ok (ARM.checksum_line data) = true /\ ARM.xline (ARM.checksum_line data) = ARM.Checksum.
+Proof. exact ARM.written_checksum_line_is_let_through. Qed.
 Print Assumptions C11_success_means_verified.
 Print Assumptions C11_failure.
 Print Assumptions C11_signer_implies_verified.
+Print Assumptions C11_malformed_checksum_line_is_refused.
+Print Assumptions C11_checked_line_is_never_skipped.
+Print Assumptions C11_written_checksum_line_is_let_through.
